@@ -116,10 +116,13 @@ class Module:
             ref = ref_funcs.get(qual)
             if ref is None:
                 continue
-            mapping = alpha_map(ref, node)
-            if mapping:
-                _Rename(mapping).visit(node)
-                self.renamed[qual] = mapping
+            script = alpha_map(ref, node)
+            if script:
+                apply_alignment(node, script)
+                self.renamed[qual] = {
+                    'rename': script['rename'],
+                    'swapped_operands': len(script['swap']),
+                    'dropped_inert_statements': len(script['drop'])}
 
     def _index(self):
         for st in self.tree.body:
@@ -218,13 +221,48 @@ def _locals_of(fn):
     return out - own - glob
 
 
+def _inert(st, fn_names_used):
+    """A statement whose presence cannot change what the function computes:
+    pass, a bare constant, a print(...) call, an assignment of a constant /
+    plain name to a local that is never read."""
+    if isinstance(st, ast.Pass):
+        return True
+    if isinstance(st, ast.Expr) and isinstance(st.value, ast.Constant):
+        return True
+    if isinstance(st, ast.Expr) and isinstance(st.value, ast.Call) and \
+            isinstance(st.value.func, ast.Name) and \
+            st.value.func.id == 'print':
+        return not any(isinstance(n, (ast.Call, ast.Yield, ast.Await,
+                                      ast.NamedExpr))
+                       and n is not st.value and not (
+                           isinstance(n.func, ast.Attribute)
+                           and n.func.attr == 'format') and not (
+                               isinstance(n.func, ast.Name)
+                               and n.func.id in ('len', 'str', 'repr'))
+                       for n in ast.walk(st.value)
+                       if isinstance(n, ast.Call))
+    if isinstance(st, ast.Assign) and len(st.targets) == 1 and isinstance(
+            st.targets[0], ast.Name) and isinstance(
+                st.value, (ast.Constant, ast.Name)):
+        return fn_names_used.get(st.targets[0].id, 0) == 0
+    return False
+
+
 def alpha_map(ref, cur):
-    """{today's local name: reference local name} if `cur` equals `ref` up
-    to a non-trivial consistent bijective renaming of local names; else
-    None."""
+    """Aligns today's function `cur` with the reference function `ref`.
+    Tolerated differences (all behaviour preserving): a consistent bijective
+    renaming of local names, swapped operands of an arithmetic + or *,
+    inserted inert statements.  Returns an edit script
+    {'rename': {...}, 'swap': [BinOp nodes of cur], 'drop': [(list, stmt)]}
+    or None if the functions differ in any other way (or not at all)."""
     rlocals = _locals_of(ref)
     clocals = _locals_of(cur)
     fwd, back = {}, {}
+    swaps, drops = [], []
+    used = {}
+    for n in ast.walk(cur):
+        if isinstance(n, ast.Name) and isinstance(n.ctx, ast.Load):
+            used[n.id] = used.get(n.id, 0) + 1
 
     def name(r, c):
         if r in rlocals or c in clocals:
@@ -234,6 +272,51 @@ def alpha_map(ref, cur):
                 return False
             return True
         return r == c
+
+    def arith(n):
+        return not any(
+            isinstance(x, (ast.List, ast.Tuple, ast.JoinedStr, ast.Dict))
+            or (isinstance(x, ast.Constant) and isinstance(x.value,
+                                                           (str, bytes)))
+            or (isinstance(x, ast.Call) and isinstance(
+                x.func, ast.Attribute) and x.func.attr in (
+                    'format', 'join', 'hexdigest'))
+            or (isinstance(x, ast.Call) and isinstance(
+                x.func, ast.Name) and x.func.id in ('str', 'list', 'tuple',
+                                                    'repr'))
+            for x in ast.walk(n))
+
+    def snapshot():
+        return dict(fwd), dict(back), len(swaps), len(drops)
+
+    def restore(snap):
+        f, b, ns, nd = snap
+        fwd.clear(); fwd.update(f)
+        back.clear(); back.update(b)
+        del swaps[ns:]
+        del drops[nd:]
+
+    def cmp_body(rl, cl):
+        """statement lists: cl may contain extra inert statements"""
+        i = j = 0
+        while i < len(rl) and j < len(cl):
+            snap = snapshot()
+            if cmp(rl[i], cl[j]):
+                i += 1
+                j += 1
+                continue
+            restore(snap)
+            if _inert(cl[j], used):
+                drops.append((cl, cl[j]))
+                j += 1
+                continue
+            return False
+        while j < len(cl):
+            if not _inert(cl[j], used):
+                return False
+            drops.append((cl, cl[j]))
+            j += 1
+        return i == len(rl)
 
     def cmp(r, c):
         if type(r) is not type(c):
@@ -245,16 +328,23 @@ def alpha_map(ref, cur):
                     r.func, ast.Attribute) and r.func.attr == 'locals' and \
                     isinstance(c, ast.Call) and len(r.keywords) == len(
                         c.keywords) and not r.args and not c.args:
-                # @cython.locals(name=type): keyword names are local names
                 return cmp(r.func, c.func) and all(
                     name(kr.arg, kc.arg) and cmp(kr.value, kc.value)
                     for kr, kc in zip(r.keywords, c.keywords))
             if isinstance(r, ast.arg):
-                if r is not None and not name(r.arg, c.arg):
-                    # parameters of the function itself are not locals:
-                    # name() demands equality for them
-                    return False
-                return True
+                return name(r.arg, c.arg)
+            if isinstance(r, ast.BinOp) and isinstance(
+                    r.op, (ast.Add, ast.Mult)) and type(r.op) is type(c.op):
+                snap = snapshot()
+                if cmp(r.left, c.left) and cmp(r.right, c.right):
+                    return True
+                restore(snap)
+                if arith(c) and cmp(r.left, c.right) and cmp(r.right,
+                                                             c.left):
+                    swaps.append(c)
+                    return True
+                restore(snap)
+                return False
             for f in r._fields:
                 rv, cv = getattr(r, f, None), getattr(c, f, None)
                 if f == 'name' and isinstance(
@@ -269,6 +359,14 @@ def alpha_map(ref, cur):
                     continue
                 if f in ('type_comment', ):
                     continue
+                if f in ('body', 'orelse', 'finalbody') and isinstance(
+                        rv, list) and rv and isinstance(rv[0], ast.stmt) \
+                        or (f in ('body', 'orelse', 'finalbody')
+                            and isinstance(cv, list) and cv
+                            and isinstance(cv[0], ast.stmt)):
+                    if not cmp_body(rv or [], cv or []):
+                        return False
+                    continue
                 if not cmp(rv, cv):
                     return False
             return True
@@ -277,13 +375,25 @@ def alpha_map(ref, cur):
         return r == c
 
     if isinstance(ref, ast.If):  # main block
-        ok = cmp(ref.body, cur.body)
+        ok = cmp_body(ref.body, cur.body)
     else:
         ok = cmp(ref, cur)
     if not ok:
         return None
     mapping = {c: r for c, r in fwd.items() if c != r}
-    return mapping or None
+    if not mapping and not swaps and not drops:
+        return None
+    return {'rename': mapping, 'swap': swaps, 'drop': drops}
+
+
+def apply_alignment(node, script):
+    for b in script['swap']:
+        b.left, b.right = b.right, b.left
+    for lst, st in script['drop']:
+        if st in lst:
+            lst.remove(st)
+    if script['rename']:
+        _Rename(script['rename']).visit(node)
 
 
 class _Rename(ast.NodeTransformer):
